@@ -98,10 +98,17 @@ Definition module_name (m : modref) : text :=
   | _ => module_name_str m
   end.
 
+(* compile_require: `prefix, assignments = assignment_shape(module, rest)` followed by
+   `if prefix: assignments = "ALL"` -- a prefixed require brings in every macro of the module;
+   _hy_export_macros only governs the star form *)
+Definition require_shape (m : modref) (rest : option importlike) : text * assignments :=
+  let '(prefix, a) := assignment_shape m rest in
+  match prefix with [] => (prefix, a) | _ => (prefix, AAll) end.
+
 (* arguments of the compile-time call require(module_name, compiler.module, assignments=, prefix=) *)
 Record call_args := { ca_module : text; ca_assignments : assignments; ca_prefix : text }.
 Definition compile_time_args (m : modref) (rest : option importlike) : call_args :=
-  let '(prefix, a) := assignment_shape m rest in
+  let '(prefix, a) := require_shape m rest in
   {| ca_module := module_name m; ca_assignments := a; ca_prefix := prefix |}.
 
 (* the emitted call as data: Hy models that compile to Python literals *)
@@ -111,14 +118,15 @@ Definition k_exports : text := txt "EXPORTS".
 Definition k_all : text := txt "ALL".
 
 Definition emitted_call (m : modref) (rest : option importlike) (this_module : text) : emitted :=
-  let '(prefix, a) := assignment_shape m rest in
+  let '(prefix, a) := require_shape m rest in
   {| em_positional := [LStr (module_name m); LNone];
      em_keywords :=
        [(txt "target_module_name", LStr this_module);
         (txt "assignments",
          match a with
          | APairs l => LList (map (fun kv => LList [LStr (fst kv); LStr (snd kv)]) l)
-         | _ => LStr k_exports     (* assignment_shape never yields "ALL" *)
+         | AAll => LStr k_all
+         | AExports => LStr k_exports
          end);
         (txt "prefix", LStr prefix)] |}.
 
